@@ -686,4 +686,21 @@ template<class T, class ABI> void run_simd(unsigned seed, unsigned nrand, const 
 }
 
 } // namespace sr
+
+// helpers of extintrin.h that no SIMDVector member calls (dead code, probed directly): _mm256_div_epi32x
+inline void run_helpers(unsigned seed) {
+#ifdef FASTOR_AVX_IMPL
+    sr::Rep R; R.seed = seed; R.head = std::string("simd cfg=") + CFGNAME + " opt=" + OPTNAME + " T=int32_t abi=avx cls=helper N=8";
+    R.begin("helper_mm256_div_epi32x");
+    sr::Rng rng(seed);
+    for (int k = 0; k < 50; ++k) { alignas(32) int32_t a[8], b[8], got[8];
+        for (int i = 0; i < 8; ++i) { a[i] = (int32_t)(rng.next() % 20001) - 10000; b[i] = (int32_t)(rng.next() % 199) + 1; }
+        __m256i r = Fastor::_mm256_div_epi32x(_mm256_load_si256((const __m256i*)a), _mm256_load_si256((const __m256i*)b));
+        _mm256_store_si256((__m256i*)got, r);
+        for (int i = 0; i < 8; ++i) { ++R.n; if (got[i] != a[i] / b[i]) { R.fail("lane=" + std::to_string(i) + " a=" + sr::hexv(a, 8) + " b=" + sr::hexv(b, 8) + " got=" + sr::hexv(got, 8)); break; } } }
+    R.end();
+#else
+    (void)seed;
+#endif
+}
 using sr::run_simd;
